@@ -150,8 +150,14 @@ class RabbitMessageBroker(MessageBrokerT):
     ) -> None:
         logger_extra = {"routing_key": key}
         logger.debug("Requeueing message ({routing_key}).", extra=logger_extra)
-        await self.ack(key)
-        await self.enqueue(key, payload, params)
+
+        async def replace() -> None:
+            await self.ack(key)
+            await self.enqueue(key, payload, params)
+
+        # AMQP can't replace a message atomically, so at least don't let a cancellation
+        # of the caller fall between the ack of the old message and the publish of the new one
+        await asyncio.shield(replace())
 
     async def queue_declare(self, queue_name: str) -> None:
         logger.debug("Declaring queue '{queue_name}'.", extra={"queue_name": queue_name})
